@@ -508,21 +508,43 @@ def resolve_local(func_node, expr, depth: int = 6, at: Optional[int] = None):
     return expr
 
 
+def clone_ast(node):
+    """structural copy of an expression that does not follow the `parent` links the loader adds"""
+    if isinstance(node, ast.AST):
+        new = node.__class__()
+        for name in node._fields:
+            if hasattr(node, name):
+                setattr(new, name, clone_ast(getattr(node, name)))
+        for a in ("lineno", "col_offset", "end_lineno", "end_col_offset"):
+            if hasattr(node, a):
+                setattr(new, a, getattr(node, a))
+        return new
+    if isinstance(node, list):
+        return [clone_ast(x) for x in node]
+    return node
+
+
 def expand_locals(func_node, expr, depth: int = 4):
     """a copy of `expr` in which every single-definition local is replaced by its defining expression"""
-    import copy
     sd = single_defs(func_node)
 
-    class X(ast.NodeTransformer):
-        def __init__(self, d):
-            self.d = d
+    def go(n, d):
+        if isinstance(n, ast.Name) and isinstance(n.ctx, ast.Load) and n.id in sd and d > 0:
+            return go(sd[n.id], d - 1)
+        if isinstance(n, ast.AST):
+            new = n.__class__()
+            for name in n._fields:
+                if hasattr(n, name):
+                    setattr(new, name, go(getattr(n, name), d))
+            for a in ("lineno", "col_offset", "end_lineno", "end_col_offset"):
+                if hasattr(n, a):
+                    setattr(new, a, getattr(n, a))
+            return new
+        if isinstance(n, list):
+            return [go(x, d) for x in n]
+        return n
 
-        def visit_Name(self, n):
-            if isinstance(n.ctx, ast.Load) and n.id in sd and self.d > 0:
-                return X(self.d - 1).visit(copy.deepcopy(sd[n.id]))
-            return n
-
-    return X(depth).visit(copy.deepcopy(expr))
+    return go(expr, depth)
 
 
 def return_values(func_node):
@@ -533,3 +555,15 @@ def return_values(func_node):
         if isinstance(n, ast.Return) and n.value is not None:
             out.append((n, resolve_local(func_node, n.value)))
     return out
+
+
+def resolve_name(func_node, expr, at: Optional[int] = None, depth: int = 6):
+    """like resolve_local, but only through name-to-name copies (`_ret = compiled; return _ret` -> `compiled`)"""
+    while depth > 0 and isinstance(expr, ast.Name):
+        nxt = resolve_local(func_node, expr, depth=1, at=at)
+        if isinstance(nxt, ast.Name) and nxt is not expr:
+            expr = nxt
+            depth -= 1
+            continue
+        break
+    return expr
